@@ -1,0 +1,18 @@
+//! Verification hooks, compiled only with `--cfg xet_verif`: named schedule points at which a harness can
+//! suspend a thread (outside the cache's state lock), so that interleavings of cache operations can be replayed.
+use std::sync::RwLock;
+
+type Hook = Box<dyn Fn(&str) + Send + Sync>;
+
+static HOOK: RwLock<Option<Hook>> = RwLock::new(None);
+
+pub fn set_hook(h: Option<Hook>) {
+    *HOOK.write().unwrap() = h;
+}
+
+#[inline]
+pub fn sched_point(name: &str) {
+    if let Some(h) = HOOK.read().unwrap().as_ref() {
+        h(name);
+    }
+}
